@@ -12,6 +12,12 @@ VERIF = os.path.dirname(os.path.dirname(os.path.abspath(__file__)))
 REPO = '/repo'
 EVIDENCE_DIR = os.path.join(VERIF, 'evidence')
 REPLAY_DIR = os.path.join(VERIF, 'replays')
+if os.environ.get('WCVERIF_DEV_REPO'):
+    # developer runs only (never set by a registered command): another checkout stands in for /repo, and nothing is written to the
+    # evidence / replay directories of /verif
+    REPO = os.path.realpath(os.environ['WCVERIF_DEV_REPO'])
+    EVIDENCE_DIR = '/tmp/wcverif_dev/evidence'
+    REPLAY_DIR = '/tmp/wcverif_dev/replays'
 KNOWN_FILE = os.path.join(VERIF, 'KNOWN_FINDINGS.txt')
 
 EXIT_OK, EXIT_VIOLATION, EXIT_HARNESS = 0, 1, 3
